@@ -1070,3 +1070,34 @@ mut("c19-emit-no-quit", ["C19"], [(BM, '''	select {
 	case b.blockNtfnChan <- blockntfns.NewBlockConnected(header, height):
 	case <-b.quit:
 	}''', '''	b.blockNtfnChan <- blockntfns.NewBlockConnected(header, height)''')], ["C19.W1"])
+
+# ---- C01.O1 (typestate) ----
+mut("c01-sanity-abort-no-reset", ["C01"], [(BM, '''				hmsg.peer.Disconnect()
+
+				// Earlier headers of this message are already
+				// on the header list but will never be written.
+				b.resetHeaderListToChainTip()
+				return''', '''				hmsg.peer.Disconnect()
+				return''')], ["C01.O1"])
+mut("c01-write-error-no-reset", ["C01"], [(BM, '''			// Nothing of the batch was stored.
+			b.resetHeaderListToChainTip()
+			return''', '''			return''')], ["C01.O1"])
+mut("c01-checkpoint-abort-no-reset", ["C01"], [(BM, '''				// The store is back at the checkpoint and the
+				// batch is dropped, so the list must follow.
+				b.resetHeaderListToChainTip()
+				return''', '''				return''')], ["C01.O1"])
+mut("c01-reset-from-wrong-source", ["C01"], [(BM, '''	header, height, err := b.cfg.BlockHeaders.ChainTip()
+	if err != nil {
+		log.Criticalf("Unable to re-read block header chain tip: %v",
+			err)
+		return
+	}
+
+	b.headerList.ResetHeaderState(headerlist.Node{
+		Header: *header,
+		Height: int32(height),
+	})''', '''	back := b.headerList.Back()
+	b.headerList.ResetHeaderState(headerlist.Node{
+		Header: back.Header,
+		Height: back.Height,
+	})''')], ["C01.O1"])
